@@ -186,6 +186,10 @@ func newWorldYAML(y string, opts WorldOpts, checks ...string) (*World, string) {
 	if !opts.NoPredicates {
 		plugins.RegisterSchedulerPlugin(w.Pred)
 	}
+	lineRes = w.Checks["C19"] && Excluded("pending-tiebreak-not-weak-order")
+	if lineRes {
+		w.Excl("pending-tiebreak-not-weak-order")
+	}
 	w.savedTimings = objects.VerifGetTimings()
 	t := w.savedTimings
 	t.CompletingTimeout = time.Hour
